@@ -5,6 +5,7 @@ import (
 	"bytes"
 	"errors"
 	"net"
+	"strconv"
 	"sync"
 	"time"
 
@@ -209,20 +210,75 @@ func (cj *CookieJar) parseCookiesFromResp(host, path []byte, resp *fasthttp.Resp
 
 	now := time.Now()
 	resp.Header.VisitAllCookie(func(key, value []byte) {
-		created := false
-		c := searchCookieByKeyAndPath(key, path, cookies)
-		if c == nil {
-			c, created = fasthttp.AcquireCookie(), true
+		parsed := fasthttp.AcquireCookie()
+		if err := parsed.ParseBytes(value); err != nil && len(parsed.Key()) == 0 {
+			fasthttp.ReleaseCookie(parsed)
+			return
+		}
+		if len(parsed.Path()) == 0 {
+			parsed.SetPathBytes(path)
 		}
 
-		_ = c.ParseBytes(value) //nolint:errcheck // ignore error
-		if c.Expire().Equal(fasthttp.CookieExpireUnlimited) || c.Expire().After(now) {
-			cookies = append(cookies, c)
-		} else if created {
-			fasthttp.ReleaseCookie(c)
+		// Max-Age wins over Expires; zero or negative means "delete now"
+		expired := !parsed.Expire().Equal(fasthttp.CookieExpireUnlimited) && !parsed.Expire().After(now)
+		if maxAge, ok := cookieMaxAge(value); ok {
+			expired = maxAge <= 0
+			if !expired {
+				parsed.SetExpire(now.Add(time.Duration(maxAge) * time.Second))
+			}
+		}
+
+		// The stored cookie with the same name and the same path is replaced or deleted
+		idx := -1
+		for i, c := range cookies {
+			if bytes.Equal(c.Key(), key) && sameCookiePath(c.Path(), parsed.Path()) {
+				idx = i
+				break
+			}
+		}
+		switch {
+		case expired && idx >= 0:
+			fasthttp.ReleaseCookie(cookies[idx])
+			cookies = append(cookies[:idx], cookies[idx+1:]...)
+			fasthttp.ReleaseCookie(parsed)
+		case expired:
+			fasthttp.ReleaseCookie(parsed)
+		case idx >= 0:
+			cookies[idx].CopyTo(parsed)
+			fasthttp.ReleaseCookie(parsed)
+		default:
+			cookies = append(cookies, parsed)
 		}
 	})
 	cj.hostCookies[hostStr] = cookies
+}
+
+// sameCookiePath compares cookie paths; a cookie without path belongs to "/".
+func sameCookiePath(a, b []byte) bool {
+	if len(a) == 0 {
+		a = []byte{'/'}
+	}
+	if len(b) == 0 {
+		b = []byte{'/'}
+	}
+	return bytes.Equal(a, b)
+}
+
+// cookieMaxAge extracts the Max-Age attribute of a Set-Cookie value (fasthttp keeps only
+// positive values and cannot tell "Max-Age=0" from "no Max-Age").
+func cookieMaxAge(setCookie []byte) (int, bool) {
+	for _, attr := range bytes.Split(setCookie, []byte{';'})[1:] {
+		k, v, found := bytes.Cut(bytes.TrimSpace(attr), []byte{'='})
+		if !found || !bytes.EqualFold(k, []byte("max-age")) {
+			continue
+		}
+		n, err := strconv.Atoi(string(bytes.TrimSpace(v)))
+		if err != nil {
+			return 0, false
+		}
+		return n, true
+	}
+	return 0, false
 }
 
 // Release releases all stored cookies. After this, the CookieJar is empty.
